@@ -237,6 +237,9 @@ struct RecInner {
     /// inside the hook (its Begin event is recorded first), simulating one slow in-flight write
     hold: Option<(&'static str, u64)>,
     hold_used: bool,
+    /// which write to that class is held (0 = the first)
+    hold_nth: usize,
+    hold_seen: usize,
 }
 
 /// The process-global hook implementation.
@@ -288,9 +291,15 @@ impl Recorder {
     }
     /// Hold back the first write to a file of class `class` for `micros` (None = off).
     pub fn set_hold(&self, h: Option<(&'static str, u64)>) {
+        self.set_hold_nth(h, 0);
+    }
+    /// Hold back the `nth` (0-based) write to a file of class `class`.
+    pub fn set_hold_nth(&self, h: Option<(&'static str, u64)>, nth: usize) {
         let mut g = self.lock();
         g.hold = h;
         g.hold_used = false;
+        g.hold_nth = nth;
+        g.hold_seen = 0;
     }
     /// Number of recorded MUTATING operations (not fsyncs) that have begun but not ended (since the last `watch` / `take`).
     pub fn in_flight_events(&self) -> usize {
@@ -401,8 +410,13 @@ impl Hook for Recorder {
         g.next_id += 1;
         let hold_us = match (&kind, g.hold) {
             (Kind::Write { .. }, Some((class, us))) if !g.hold_used && file_class(&file) == class => {
-                g.hold_used = true;
-                Some(us)
+                g.hold_seen += 1;
+                if g.hold_seen > g.hold_nth {
+                    g.hold_used = true;
+                    Some(us)
+                } else {
+                    None
+                }
             }
             _ => None,
         };
